@@ -267,6 +267,14 @@ def check_write(rep, pid):
         m = model_of(t)
         d = dict(node=i, via="children()")
         rep.item(d)
+        # a handle made with a negative position (Tree.node(i - n), as the library itself does with node(-1)) refers to
+        # the same node: its parent() / children() must be that node's
+        ok2, cs2 = rep.guard("Tree.Node.children", "write-through", dict(d, via="node(i-n).children()"), lambda: t.node(i - len(pid)).children())
+        if ok2 and [int(c.idx) for c in cs2] != ch[i]:
+            rep.viol("Tree.Node.children", "write-through", dict(d, via="node(i-n).children()"), f"handles of {[int(c.idx) for c in cs2]}", f"handles of {ch[i]}")
+        ok2, p2 = rep.guard("Tree.Node.parent", "write-through", dict(d, via="node(i-n).parent()"), lambda: t.node(i - len(pid)).parent())
+        if ok2 and (None if p2 is None else int(p2.idx)) != (None if pid[i] == -1 else pid[i]):
+            rep.viol("Tree.Node.parent", "write-through", dict(d, via="node(i-n).parent()"), f"handle {None if p2 is None else int(p2.idx)}", f"handle of {pid[i]}")
         ok, cs = rep.guard("Tree.Node.children", "write-through", d, lambda: t[i].children())
         if ok:
             got = [int(c.idx) for c in cs]
